@@ -511,14 +511,15 @@ def enc_struct(ctx: Ctx, st, value: Any, origin: int, eop: bool, what: str):
     return end, exp
 
 
-def enc_params(ctx: Ctx, params, values: dict, origin: int, eop: bool, what: str):
+def enc_params(ctx: Ctx, params, values: dict, origin: int, eop: bool, what: str, allow_unknown: bool = False):
     """encode a parameter list (request, response, structure, env-data)"""
     pdu = ctx.pdu
     pdu.ensure(origin)
     names = {p["name"] for p in params}
-    for k in values:
-        if k not in names:
-            raise RefReject(f"unknown parameter {k}")
+    if not allow_unknown:
+        for k in values:
+            if k not in names:
+                raise RefReject(f"unknown parameter {k}")
     scope = {"lenkeys": {}, "tablekeys": {}, "journal": {}}
     # explicit keys first (they are consulted by their users)
     for p in params:
@@ -555,7 +556,10 @@ def enc_params(ctx: Ctx, params, values: dict, origin: int, eop: bool, what: str
                 val = p.get("default")
                 if val is None:
                     raise RefReject(f"required parameter {p['name']} missing")
-            end, ev = enc_dop(ctx, p["dop"], val, pos, bit, p_eop, scope, w)
+            if p["dop"]["k"] == "envdesc":
+                end, ev = enc_envdesc(ctx, p["dop"], val, pos, p_eop, scope, w)
+            else:
+                end, ev = enc_dop(ctx, p["dop"], val, pos, bit, p_eop, scope, w)
             exp[p["name"]] = ev
             scope["journal"][p["name"]] = (p, val)
         elif pk == "system":
@@ -655,6 +659,37 @@ def enc_params(ctx: Ctx, params, values: dict, origin: int, eop: bool, what: str
     # keep list order of the description in the expectation
     exp = {p["name"]: exp[p["name"]] for p in params if p["name"] in exp}
     return cursor, maxend, exp
+
+
+def enc_envdesc(ctx: Ctx, dop, value: Any, pos: int, eop: bool, scope: dict, what: str):
+    """ENV-DATA-DESC: the ALL-VALUE environment data (if any) followed by the environment data listing the
+    trouble code of the referenced (earlier) parameter; all of them draw their values from one dictionary"""
+    if not isinstance(value, dict):
+        raise RefReject("dict expected for environment data")
+    j = scope["journal"].get(dop["param"])
+    if j is None:
+        raise RefReject("ENV-DATA-DESC refers to a parameter that has not been encoded before it")
+    jp, jv = j
+    if jp["pk"] in ("value", "physconst") and jp["dop"]["k"] == "dtc":
+        code = jv
+        if isinstance(jv, str):
+            code = [c for n_, c in jp["dop"]["dtcs"] if n_ == jv][0]
+    elif jp["pk"] in ("value", "physconst"):
+        code = p2i(jp["dop"], jv)
+    elif jp["pk"] == "const":
+        code = jp["v"]
+    else:
+        raise RefUnsupported("ENV-DATA-DESC reference kind")
+    cur = pos
+    exp: dict = {}
+    ctx.pdu.ensure(cur)
+    for sel in (lambda e: e.get("all"), lambda e: code in e.get("dtcs", [])):
+        for e in dop["envs"]:
+            if sel(e):
+                cur, _maxend, ev = enc_params(ctx, e["params"], value, cur, False, f"{what}:{e['name']}", allow_unknown=True)
+                exp.update(ev)
+                break
+    return cur, exp
 
 
 class Encoded:
